@@ -396,6 +396,11 @@ impl DeferredEventData {
 
     #[inline]
     fn next_deadline(&self, min: Duration, max: Duration) -> Instant {
-        (self.first_time + max).min(self.last_time + min)
+        // a time that cannot be added to an `Instant` (`Duration::MAX`: "no upper bound") gives no deadline of its own
+        match (self.first_time.checked_add(max), self.last_time.checked_add(min)) {
+            (Some(by_max), Some(by_min)) => by_max.min(by_min),
+            (Some(deadline), None) | (None, Some(deadline)) => deadline,
+            (None, None) => self.last_time + Duration::from_secs(365 * 24 * 3600),
+        }
     }
 }
